@@ -225,7 +225,8 @@ static json gen_value(const std::string &k, const json *like) {
     for (long i = 0; i < n; ++i) {
       json s = gen_string(false);
       // an empty element is its own class (HDF5 hands variable-length "" back as a null pointer)
-      if (s["base"].get<std::string>().empty() && (known(K_EMPTYSTR) || !rbool(30))) s["base"] = "e";
+      if (rbool(15)) s["base"] = "";
+      if (s["base"].get<std::string>().empty() && known(K_EMPTYSTR)) s["base"] = "e";
       x.push_back(s);
     }
     v["x"] = x;
@@ -286,6 +287,7 @@ static json gen_seq() {
   int nops = rcount(2, 24);
   json ops = json::array();
   std::map<std::string, json> last;  // what this generator wrote where (to aim overwrites)
+  std::map<std::string, std::pair<std::vector<std::string>, std::string>> where;
   for (int i = 0; i < nops; ++i) {
     int c = ri(0, 99);
     if (i == 0 && rbool(90)) c = 70;
@@ -293,7 +295,14 @@ static json gen_seq() {
     if (c < 62) {
       std::vector<std::string> path = pickv(paths());
       std::string name = pickv(names);
+      if (!last.empty() && rbool(50)) {  // aim at something written before: overwrites are the interesting steps
+        auto pick_it = last.begin();
+        std::advance(pick_it, ri(0, int(last.size()) - 1));
+        path = where[pick_it->first].first;
+        name = where[pick_it->first].second;
+      }
       std::string key = mkey(path, name);
+      where[key] = {path, name};
       json val;
       auto it = last.find(key);
       int how = ri(0, 9);
@@ -306,7 +315,7 @@ static json gen_seq() {
       last[key] = val;
       op = json{{"op", "write"}, {"path", path}, {"name", name}, {"val", val}, {"direct", rbool(30)}};
     } else if (c < 82) {
-      std::string mode = (i == 0) ? pick<std::string>({"CREATE", "MODIFY"}) : pick<std::string>({"READ", "READ", "MODIFY", "MODIFY", "CREATE"});
+      std::string mode = (i == 0) ? pick<std::string>({"CREATE", "MODIFY"}) : pick<std::string>({"READ", "READ", "READ", "MODIFY", "MODIFY", "MODIFY", "CREATE"});
       if (mode == "CREATE") last.clear();
       op = json{{"op", "reopen"}, {"mode", mode}};
     } else {
@@ -636,7 +645,6 @@ struct Machine {
   std::string mode;
   std::map<std::string, Entry> model;
   std::set<std::string> groups;  // absolute group paths that exist ("" = root)
-  std::vector<std::pair<std::vector<std::string>, std::string>> graveyard;  // names lost by CREATE
   bool type_dirty = false;  // an overwrite with another type happened since CREATE: stale objects are expected
   Result r;
   bool wrote = false, nt_reopen = false, nt_shape = false, nt_empty = false;
@@ -671,31 +679,6 @@ struct Machine {
       }
       if (!diff.empty()) {
         r.fail(e.attr_key, what + " -> " + diff);
-        return;
-      }
-    }
-    // names that existed before the last CREATE must be gone
-    int probes = 0;
-    for (auto &g : graveyard) {
-      if (probes >= 3) break;
-      if (model.count(mkey(g.first, g.second))) continue;
-      ++probes;
-      marker("Checkpoint/create-does-not-truncate", when + ": probing a name written before CREATE");
-      bool threw = false;
-      try {
-        with_reader(f.getReader(), g.first, 0, [&](const xtp::CheckpointReader &rd) {
-          std::vector<double> x;
-          rd(x, g.second);
-          double d;
-          rd(d, g.second);
-        });
-      } catch (const std::runtime_error &) {
-        threw = true;
-      } catch (const H5::Exception &) {
-        threw = true;
-      }
-      if (!threw) {
-        r.fail("Checkpoint/create-does-not-truncate", when + ": " + abs_path(g.first) + ":" + quote(g.second) + " written before CREATE is still readable");
         return;
       }
     }
@@ -760,8 +743,7 @@ struct Machine {
     }
     mode = m;
     if (m == "CREATE") {
-      for (auto &kv : model) graveyard.emplace_back(kv.second.path, kv.second.name);
-      if (graveyard.size() > 8) graveyard.erase(graveyard.begin(), graveyard.end() - 8);
+      if (!model.empty()) r.cls("CREATE-truncates-nonempty-file");
       model.clear();
       groups.clear();
       type_dirty = false;
@@ -789,7 +771,10 @@ struct Machine {
         return;
       } catch (const std::runtime_error &) {
       }
-      // (2) through the location the reader exposes
+      // (2) through the location the reader exposes.  HDF5 itself must refuse; an attempt that is a no-op (e.g. a 0-row
+      // matrix onto an existing dataset) need not throw.  What counts is the FILE: HDF5 updates its in-memory attribute
+      // cache before it notices the missing write intent, so handles in this process may see the attempted value while
+      // the file is open; therefore close the READ handle, compare the file on disk, open it again.
       bool threw = false;
       try {
         xtp::CheckpointReader rd = h->getReader();
@@ -801,12 +786,14 @@ struct Machine {
         threw = true;
         r.cls("readonly-write-raw-H5-exception");
       }
-      if (!threw && !(storage(val.at("k")) != "attr" && is_empty_shape(val) && val.at("k") == "vv3")) {
-        // (an empty vector<Vector3d> into an existing group writes nothing: no error needed)
-        r.fail("Checkpoint/readonly-modified", when + ": writing through a READ handle's location did not fail");
+      r.cls(threw ? "readonly-write-via-reader-location-threw" : "readonly-write-via-reader-location-silent");
+      h.reset();
+      verify(when + " (attempted through a READ handle, file must be unchanged)");
+      if (!r.ok) {
+        if (r.key != "Checkpoint/content-listing") r.key = "Checkpoint/readonly-modified";
         return;
       }
-      verify(when + " (READ handle, must be unchanged)");
+      h = std::make_unique<xtp::CheckpointFile>(file, xtp::CheckpointAccessLevel::READ);
       return;
     }
     // classify against everything written under this name since the last CREATE
@@ -828,10 +815,12 @@ struct Machine {
                        : emptymat     ? K_EMPTYMAT
                        : emptystr     ? K_EMPTYSTR
                                       : "Checkpoint/roundtrip-" + val.at("k").get<std::string>();
-    if (known(akey) && (type_change || shape_change || emptymat || emptystr)) {
-      r.cls("excluded-known:" + akey);
-      return;
-    }
+    // an operation that belongs to a class with a known defect is not executed (and does not enter the model)
+    for (auto &kc : std::vector<std::pair<bool, const char *>>{{type_change, K_TYPE}, {shape_change, K_SHAPE}, {emptymat, K_EMPTYMAT}, {emptystr, K_EMPTYSTR}})
+      if (kc.first && known(kc.second)) {
+        r.cls(std::string("excluded-known:") + kc.second);
+        return;
+      }
     r.cls(it == model.end() ? "op:write-fresh" : type_change ? "op:overwrite-other-type" : shape_change ? "op:overwrite-other-shape" : "op:overwrite-same-shape");
     r.cls("kind:" + val.at("k").get<std::string>());
     if (is_empty_shape(val)) {
@@ -841,6 +830,7 @@ struct Machine {
     if (shape_change) nt_shape = true;
     if (path.size() >= 2) r.cls("nested-depth>=2");
     if (val.at("k") == "m" && val.at("r").get<long>() * val.at("c").get<long>() > 2500) r.cls("big-matrix");
+    if (emptystr) r.cls("vector<string>-with-empty-element");
     if (val.at("k") == "s" && str_of(val).size() > 10000) r.cls("string>10kB");
     bool direct = op.at("direct").get<bool>() && !path.empty() && groups.count(gpath(path, path.size() - 1));
     if (direct) r.cls("getWriter(absolute-path)");
